@@ -1250,3 +1250,27 @@ M("c14_claimed_reported_as_alloc_failure_dyn", ["C14"], ["C14.R5"], [
 M("c04_anychunk_from_detached_lifetime_revert", ["C04"], ["C04.R3", "C04.W", "C04.R4"], [
     ("src/stats/any.rs", """impl<'a, A, S> From<Chunk<'a, A, S>> for AnyChunk<'a>""", """impl<A, S> From<Chunk<'_, A, S>> for AnyChunk<'_>"""),
     ("src/stats/any.rs", """    fn from(value: Chunk<'a, A, S>) -> Self {""", """    fn from(value: Chunk<'_, A, S>) -> Self {""")])
+
+M("c08_rev_insert_ptr_cached_across_reserve", ["C08"], ["C08.R5"], [
+    ("src/mut_bump_vec_rev.rs", """        self.generic_reserve_one()?;
+
+        unsafe {
+            let ptr = if index == 0 {
+                self.len += 1;
+                self.as_mut_ptr()
+            } else {
+                let start = self.as_mut_ptr();""", """        let start = self.as_mut_ptr();
+        self.generic_reserve_one()?;
+
+        unsafe {
+            let ptr = if index == 0 {
+                self.len += 1;
+                self.as_mut_ptr()
+            } else {""")])
+M("c09_insert_str_ptr_cached_across_reserve", ["C09"], ["C09.R5"], [
+    ("src/bump_string.rs", """        let additional_len = given_len.saturating_sub(range_len);
+        self.generic_reserve(additional_len)?;""", """        let additional_len = given_len.saturating_sub(range_len);
+        let stale = self.as_mut_ptr();
+        self.generic_reserve(additional_len)?;
+        unsafe { stale.write(0) };""")])
+
